@@ -672,7 +672,7 @@ func (p *Path) rangeIter(x value, t types.Type) iter {
 				rest := append([]int(nil), it.order...)
 				var ord []int
 				for len(rest) > 1 {
-					c := p.decide(len(rest), nil)
+					c := p.decideCtl(len(rest))
 					ord = append(ord, rest[c])
 					rest = append(rest[:c], rest[c+1:]...)
 				}
